@@ -36,6 +36,7 @@ from explorerscript.ssb_converting.ssb_special_ops import (
     OP_MESSAGE_SWITCH_TALK,
     OP_MESSAGE_SWITCH_MONOLOGUE,
     OPS_SWITCH_TEXT_CASE_MAP,
+    OP_DEFAULT_TEXT,
 )
 from explorerscript.ssb_converting.util import Blk
 
@@ -48,6 +49,7 @@ class MesageSwitchSimpleOpWriteHandler(AbstractWriteHandler):
 
     op_name: str | None
     have_written_at_least_one_child: bool
+    have_written_default: bool
 
     def __init__(
         self, start_vertex: Vertex, decompiler: ExplorerScriptSsbDecompiler, parent: AbstractWriteHandler | None
@@ -55,6 +57,7 @@ class MesageSwitchSimpleOpWriteHandler(AbstractWriteHandler):
         super().__init__(start_vertex, decompiler, parent)
         self.op_name = None
         self.have_written_at_least_one_child = False
+        self.have_written_default = False
 
     def write_content(self) -> Vertex | None:
         op: SsbOperation = self.start_vertex["op"]
@@ -100,5 +103,9 @@ class MesageSwitchSimpleOpWriteHandler(AbstractWriteHandler):
             if not self.have_written_at_least_one_child:
                 raise ValueError("A message_Switch* must have at least one case or default.")
             return False
+        # The language runs the default after all cases, wherever it is written, and knows only one default.
+        # Any other order of the operations can not be expressed as a message switch.
+        assert not self.have_written_default, "A DefaultText must be the last operation of a message_Switch*."
+        self.have_written_default = next_op.op_code.name == OP_DEFAULT_TEXT
         self.have_written_at_least_one_child = True
         return True
